@@ -450,6 +450,7 @@ def run_rotation(case):
                                 "minute": "{name}-{record._generated:%Y%m%dT%H%M}.records.gz",
                                 "field": "{name}-{record._generated:%Y%m%dT%H}-{record.s}.records.gz",
                                 "offset": "{name}-{record._generated:%Y%m%dT%H}.records.gz",
+                                "dayshift": "{name}-{record._generated:%Y%m%dT%H}.records.gz",
                                 "zst": "{name}-{record._generated:%Y%m%dT%H}.records.zst"}[tkind])
         hours = {"h1": 1, "h2": 2, "h3": 3}
         sentinels = []
@@ -458,6 +459,8 @@ def run_rotation(case):
             # RecordArchiver / the archive:// adapter put the default hourly template under <dir>/YYYY/mm/dd/
             tmpl = os.path.join(d, "2021", "05", "05", "{name}-{record._generated:%Y%m%dT%H}.records.gz")
             os.makedirs(os.path.dirname(tmpl))
+            if tkind == "dayshift":
+                pre = False
         if pre:
             p = tmpl.format(name="records", record=type("R", (), {"_generated": real_dt.datetime(2021, 5, 5, hours["h1"], tzinfo=real_dt.timezone.utc)})())
             w = RecordWriter(p)
@@ -482,13 +485,16 @@ def run_rotation(case):
                 w = PathTemplateWriter(tmpl)
             for i, hb in enumerate(seq):
                 ts = "dt(2021,5,5,%d,%d,0,tz=UTC)" % (hours[hb], i)
+                if tkind == "dayshift":
+                    # just after local midnight at +02:00 (the evening before in UTC): directory {ts:%Y/%m/%d} and file name follow the record's own timestamp
+                    ts = {"h1": "dt(2021,5,5,0,10,%d,tz=off(2))", "h2": "dt(2021,5,5,1,10,%d,tz=off(2))", "h3": "dt(2021,5,5,23,50,%d,tz=off(3,neg=True))"}[hb] % i
                 if tkind == "offset":
                     # +05:30: h1 -> 11:50 local (06:20Z), h2 -> 12:10 local (06:40Z), h3 -> 12:50 local (07:20Z): one UTC hour holds two local hours
                     ts = {"h1": "dt(2021,5,5,11,50,%d,tz=off(5,30))", "h2": "dt(2021,5,5,12,10,%d,tz=off(5,30))", "h3": "dt(2021,5,5,12,50,%d,tz=off(5,30))"}[hb] % i
                 sval = "k%d" % (i % 2)
                 r = recs.build_record(rs("w/one", [["string", "s"], ["varint", "n"]], ["'%s'" % sval, str(i)], _generated=ts))
                 w.write(r)
-                prefix_ = {"offset": "records-20210505T%s" % {"h1": "11", "h2": "12", "h3": "12"}[hb], "zst": "records-20210505T%02d" % hours[hb],
+                prefix_ = {"dayshift": "2021/05/05/records-20210505T%s" % {"h1": "00", "h2": "01", "h3": "23"}[hb], "offset": "records-20210505T%s" % {"h1": "11", "h2": "12", "h3": "12"}[hb], "zst": "records-20210505T%02d" % hours[hb],
                            "hour": "records-20210505T%02d" % hours[hb], "minute": "records-20210505T%02d%02d" % (hours[hb], i),
                            "field": "records-20210505T%02d-%s" % (hours[hb], sval)}[tkind]
                 written.append((("w/one", i), prefix_))
@@ -521,6 +527,12 @@ def run_rotation(case):
                          {"lost": lost[:6], "duplicated": dup[:6], "files": listing}))
         prefix = dict(written)
         for ident, f in found:
+            if ident in prefix and "/" in prefix[ident]:
+                rel = next(r_ for r_ in listing if os.path.basename(r_) == f)
+                if not rel.startswith(prefix[ident]):
+                    viol.append(("C17:rotation:record-in-wrong-file", case, {"record": ident, "file": rel, "expected_prefix": prefix[ident]}))
+                    break
+                continue
             if ident in prefix and not f.startswith(prefix[ident]):
                 viol.append(("C17:rotation:record-in-wrong-file", case, {"record": ident, "file": f}))
                 break
@@ -570,11 +582,20 @@ def cases(tier, seed):
             for pre in (False, True):
                 for clock in ("advances", "same-second"):
                     yield {"kind": "rotation", "seq": list(seq), "pre": pre, "clock": clock}
+        if k == 5:
+            # the same two or three targets rotated many times (12+ rotations of one path within one clock second)
+            for base_seq, reps in ((["h1", "h2"], 14), (["h1", "h2", "h3"], 13), (["h1", "h1", "h2"], 13), (["h1", "h2"], 25)):
+                for clock in ("advances", "same-second"):
+                    for pre in (False, True):
+                        yield {"kind": "rotation", "seq": base_seq * reps, "pre": pre, "clock": clock}
         if k <= 4:
             for door in ("archiver", "archive-uri"):
                 for seq in itertools.product(["h1", "h2", "h3"], repeat=k):
                     for pre in (False, True):
                         yield {"kind": "rotation", "seq": list(seq), "pre": pre, "clock": "advances", "door": door}
+            for door in ("archiver", "archive-uri"):
+                for seq in itertools.product(["h1", "h2", "h3"], repeat=min(k, 3)):
+                    yield {"kind": "rotation", "seq": list(seq), "pre": False, "clock": "advances", "door": door, "template": "dayshift"}
             for tk in ("offset", "zst"):
                 for seq in itertools.product(["h1", "h2", "h3"], repeat=k):
                     yield {"kind": "rotation", "seq": list(seq), "pre": False, "clock": "advances", "template": tk}
